@@ -1,7 +1,18 @@
 (** C20 - A stalled or malicious handshake never blocks other connections.  Property theorems only.
     Proof level: the task structure (one independent handshake task per accepted connection, touching
     the socket only in its final step).  That tokio eventually runs every runnable task is assumed. *)
+From ZV Require Gen.Src.
 From ZV Require Import Base.Bytes Base.Res Model.Codec Model.Handshake Model.Runtime Proofs.RuntimeProofs.
+
+(** structure re-read from the source on every run: both accept loops are a two-armed select (accept /
+    stop), spawn the handshake task detached and never await anything inside the loop - which is what
+    makes [ANewConn] unconditionally enabled in the model below *)
+Theorem C20_gen_structure :
+  Gen.Src.tcp_accept_loop_awaits = 0 /\ Gen.Src.ipc_accept_loop_awaits = 0 /\
+  Gen.Src.tcp_accept_spawns_detached = 1 /\ Gen.Src.ipc_accept_spawns_detached = 1 /\
+  Gen.Src.tcp_accept_select_arms = 2 /\ Gen.Src.ipc_accept_select_arms = 2.
+Proof. repeat split; reflexivity. Qed.
+Print Assumptions C20_gen_structure.
 
 (** while the bind is not stopped the listener can accept, whatever state any handshake task is in;
     accepting touches neither the peer tables nor the monitor *)
